@@ -97,6 +97,19 @@ let handle line =
     (match write_tar_header e tgt (xs rest) (n_of_string counter) with
      | W_Ok b -> "OK " ^ hex b
      | W_Unsupported -> "UNSUP -")
+  | "E" :: counter :: hl :: mode :: uid :: gid :: size :: mtime :: rdev :: name :: target :: data :: nx :: rest ->
+    (* sqfs2tar's write_entry: xattrs in image order, header + data + padding *)
+    let rec xs l = match l with k :: v :: r -> (unhex k, unhex v) :: xs r | _ -> [] in
+    ignore nx;
+    let e = { e_name = unhex name; e_mode = n_of_string mode; e_uid = n_of_string uid;
+              e_gid = n_of_string gid; e_size = n_of_string size; e_mtime = z_of_string mtime;
+              e_rdev = n_of_string rdev; e_hardlink = (hl = "1") } in
+    let t = { te_e = e; te_target = (if target = "~" then None else Some (unhex target));
+              te_xattr = xs rest; te_data = unhex data } in
+    let c = n_of_string counter in
+    (match write_entry_hdr t c with
+     | W_Ok _ -> "OK " ^ hex (write_entries [t] c)
+     | W_Unsupported -> "UNSUP -")
   | ["R"; s] ->
     let l = unhex s in
     (match read_header l with
